@@ -17,3 +17,22 @@ Theorem C13_request_blocks_preserve : forall size fuel d q acc, IInv size d ->
   IInv size (fst (request_blocks fuel d q acc)).
 Proof. exact request_blocks_inv. Qed.
 Print Assumptions C13_request_blocks_preserve.
+
+(* ---- the event loop during the metadata phase (MetaSess.v) ---- *)
+From RainV Require Import MetaSess MetaSessProofs.
+
+(* for every history of extension handshakes (any announced size, with or without ut_metadata),
+   metadata data/reject/request messages (any index, length, content, total_size, duplicates,
+   unrequested), snub timers, disconnects, connects and ordinary messages sent before the metadata
+   is known, from any number of honest and lying peers, and every observed choice of which
+   eligible peer gets an info downloader:
+   - metadata is adopted only when the announced size is the size of the true info dictionary and
+     the last bytes copied into every 16 KiB block were the true bytes (so the adopted bytes are the
+     dictionary whose SHA-1 is the info-hash of the link);
+   - an info downloader, whose creation allocates the announced size, only ever exists for an
+     announced size in (0, MaxMetadataSize] *)
+Theorem C13_adoption_sound_and_size_capped : forall truesize mx par q np P s, mreach (minit truesize mx par q np P) s ->
+  (t_adopted s = true -> exists recv, t_adopted_from s = Some (truesize, recv) /\ forallb (fun x => x =? 1) recv = true) /\
+  (forall p d, m_idl (mget s p) = Some d -> 0 < d_size d <= mx).
+Proof. exact adoption_sound. Qed.
+Print Assumptions C13_adoption_sound_and_size_capped.
